@@ -88,7 +88,18 @@ func (s *sched) step(t *sthread) {
 	t.steps++
 	s.order = append(s.order, t.id)
 	t.resume <- struct{}{}
-	ev := <-t.yield
+	var ev *vshim.Ev
+	select {
+	case ev = <-t.yield:
+	case <-time.After(8 * time.Second):
+		// the thread neither finished its action nor reached another scheduling point: it is blocked on something
+		// the scheduler does not control (a lock or channel that is not one of the shimmed primitives) while every
+		// other thread is suspended - nobody can ever release it
+		s.problem = fmt.Sprintf("HANG: T%d is blocked outside the scheduler (a lock the library took that is not released while the other threads are suspended: self-deadlock or lock-order deadlock)", t.id)
+		t.done = true
+		t.pending = nil
+		return
+	}
 	if ev == nil {
 		t.done = true
 	}
@@ -352,6 +363,11 @@ func (tg *target) cacheOp(t []string) (string, int, []string, []string) {
 		return "-", 0, nil, nil
 	case "setdefexp":
 		c.SetDefaultExpiration(d(1))
+		return "-", 0, nil, nil
+	case "setevcb":
+		id := int(atoi64(t[1]))
+		in.curCb = id
+		c.SetCallback(in.mkcb(id))
 		return "-", 0, nil, nil
 	case "tick":
 		// the clock advances while the other threads are in the middle of their calls
@@ -816,6 +832,10 @@ func genProgram(r *rng, kind string, focus string) *program {
 		}
 		if r.chance(1, 3) {
 			p.threads = append(p.threads, []string{[]string{"delete", "getanddelete"}[r.intn(2)] + fmt.Sprintf(" x%d", r.intn(nx))})
+		}
+		if r.chance(1, 3) {
+			// the callback is replaced (by itself) while passes are delivering
+			p.threads = append(p.threads, []string{fmt.Sprintf("setevcb %d", p.cb)})
 		}
 	case "lazy":
 		// every key is expired-but-uncleaned when the concurrent phase starts: lazy deletion on read and
